@@ -84,6 +84,13 @@ def forall(pred):
     raise NotImplementedError('forall() is prover-only (loop invariants and lemmas)')
 
 
+def ext(name):
+    """an external (library) function by dotted name; symbolically an uninterpreted pure function"""
+    import importlib
+    mod, _, fn = name.rpartition('.')
+    return getattr(importlib.import_module(mod), fn)
+
+
 def set_of(seq):
     return set(seq)
 
@@ -321,8 +328,9 @@ class Obj(Shape):
     fields: name -> Shape;  ghost: name -> Shape (specification-only state);
     native: callable(fieldvalues dict) -> real object, for T3/replay.
     """
-    def __init__(self, cls, fields=None, ghost=None, native=None, where=None):
+    def __init__(self, cls, fields=None, ghost=None, native=None, where=None, closed=False):
         self.cls, self.fields, self.ghost, self.native = cls, dict(fields or {}), dict(ghost or {}), native
+        self.closed = closed     # reads clause: the function may read only the declared fields of this object
         self.where = where   # optional lambda over the object: shape invariant (symbolic assume / native filter)
 
     def allfields(self):
@@ -337,7 +345,7 @@ class Obj(Shape):
         for combo in itertools.product(*alts):
             f = {n: s for n, s in zip(names, combo) if n in self.fields}
             g = {n: s for n, s in zip(names, combo) if n in self.ghost}
-            out.append(Obj(self.cls, f, g, self.native, self.where))
+            out.append(Obj(self.cls, f, g, self.native, self.where, self.closed))
         return out
 
     def enum(self, budget=3):
@@ -386,7 +394,7 @@ class Old:
 class Contract:
     FIELDS = ('params', 'closure', 'requires', 'ensures', 'ghost', 'raises', 'modifies', 'loops',
               'assumes', 'props', 'inline', 'native', 'result', 'tier', 'unroll', 'globals',
-              'scope', 'note', 'kind', 'decreases', 'lemmas', 'timeout', 'modular', 'must_raise', 'raises_iff')
+              'scope', 'note', 'kind', 'decreases', 'lemmas', 'timeout', 'modular', 'must_raise', 'raises_iff', 'externals')
 
     def __init__(self, target, cls, variant=None):
         self.target = target
@@ -416,6 +424,7 @@ class Contract:
         self.modular = None
         self.must_raise = ()
         self.raises_iff = True
+        self.externals = {}
         for k, v in vars(cls).items():
             if k.startswith('_'):
                 continue
@@ -509,3 +518,19 @@ class SliceS(Shape):
     def enum(self, budget=3):
         vals = [None, 0, 1, 2, -1, 7, 9, -8]
         return [slice(a, b) for a in vals for b in vals]
+
+
+class KwArgs(Shape):
+    """**kwargs with a fixed key set"""
+    def __init__(self, items):
+        self.items = dict(items)
+
+    def cases(self):
+        names = list(self.items)
+        alts = [self.items[n].cases() for n in names]
+        return [KwArgs(dict(zip(names, c))) for c in itertools.product(*alts)]
+
+    def enum(self, budget=3):
+        names = list(self.items)
+        pools = [self.items[n].enum(budget) for n in names]
+        return [dict(zip(names, c)) for c in itertools.islice(itertools.product(*pools), 200)]
